@@ -335,6 +335,9 @@ fn scan<F: Family>(fam: Arc<F>, cfg: &LaneCfg, known: &super::known::Known) -> (
             for v in &ev.violations {
               h = super::rng::fnv1a(h, hash_str(&signature(v)));
             }
+            if std::env::var("VERIF_HASH_RUN").ok().map(|v| v == "all" || v.parse::<u64>().ok() == Some(i)).unwrap_or(false) {
+              println!("HASHDBG run={i} trace={:016x} steps={} draws={} vtime={} states={:?} viol={:?} sc={}", ev.out.stats.trace_hash, ev.out.stats.steps, ev.out.stats.draws, ev.out.vtime_ns, ev.states, ev.violations.iter().map(signature).collect::<Vec<_>>(), serde_json::to_string(sc).unwrap_or_default());
+            }
             local.run_hashes.push((i, h));
           }
           if survey {
